@@ -472,11 +472,11 @@ func init() {
 	addMutants(
 		// D118-D120 reverted
 		mutant{Name: "tagless-switch-conditions-not-checked-boolean", Prop: "C12", File: "interp/cfg.go", Old: "\t\t\t\t\t\t\tif !isBool(cond.typ) {\n\t\t\t\t\t\t\t\terr = cond.cfgErrorf(\"non-bool used as case condition\")\n\t\t\t\t\t\t\t\treturn\n\t\t\t\t\t\t\t}\n", New: "", Rule: "R12.5", Key: "cfg/case:switchIfStmt/cond-is-bool"},
-		mutant{Name: "select-clauses-do-not-record-the-break-target", Prop: "C01", File: "interp/cfg.go", Old: "\t\t\tsc = sc.pushBloc()\n\t\t\tsc.loop = n.anc.anc // a break leaves the select statement\n\t\t\tdeclareLabels(sc, n)\n\t\t\tif len(n.child) > 0 && n.child[0].action == aAssign {\n", New: "\t\t\tsc = sc.pushBloc()\n\t\t\tdeclareLabels(sc, n)\n\t\t\tif len(n.child) > 0 && n.child[0].action == aAssign {\n", Rule: "R01.37", Key: "cfg/selectStmt/records-itself-as-the-target-of-break"},
+		mutant{Name: "select-clauses-do-not-record-the-break-target", Prop: "C01", File: "interp/cfg.go", Old: "\t\t\tsc = sc.pushBloc()\n\t\t\tsc.loop = n.anc.anc // a break leaves the select statement\n\t\t\tdeclareLabels(sc, n)\n\t\t\tif len(n.child) > 0 && n.child[0].kind == defineStmt && n.child[0].action == aAssign {\n", New: "\t\t\tsc = sc.pushBloc()\n\t\t\tdeclareLabels(sc, n)\n\t\t\tif len(n.child) > 0 && n.child[0].kind == defineStmt && n.child[0].action == aAssign {\n", Rule: "R01.37", Key: "cfg/selectStmt/records-itself-as-the-target-of-break"},
 		mutant{Name: "break-target-not-tested", Prop: "C12", File: "interp/cfg.go", Old: "\t\t\t\tif sc.loop == nil {\n\t\t\t\t\terr = n.cfgErrorf(\"break is not in a loop, switch, or select\")\n\t\t\t\t\tbreak\n\t\t\t\t}\n", New: "", Rule: "R12.31", Key: "cfg/case:breakStmt/target-tested"},
 		mutant{Name: "continue-target-not-tested", Prop: "C01", File: "interp/cfg.go", Old: "\t\t\t\tif sc.loopRestart == nil {\n\t\t\t\t\terr = n.cfgErrorf(\"continue is not in a loop\")\n\t\t\t\t\tbreak\n\t\t\t\t}\n", New: "", Rule: "R01.37", Key: "cfg/case:continueStmt/target-tested"},
 		mutant{Name: "loop-state-inherited-by-function-literals", Prop: "C12", File: "interp/scope.go", Old: "\tif !indirect {\n\t\tsc.loop, sc.loopRestart = s.loop, s.loopRestart\n\t}\n", New: "\tsc.loop, sc.loopRestart = s.loop, s.loopRestart\n", Rule: "R12.31", Key: "scope.push/loop-copy#1/not-across-functions"},
-		mutant{Name: "benign-select-records-itself-with-its-own-scope", Prop: "C01", File: "interp/cfg.go", Old: "\t\t\tsc = sc.pushBloc()\n\t\t\tsc.loop = n.anc.anc // a break leaves the select statement\n\t\t\tdeclareLabels(sc, n)\n\t\t\tif len(n.child) > 0 && n.child[0].action == aAssign {\n", New: "\t\t\tsc = sc.pushBloc()\n\t\t\tsel := n.anc.anc\n\t\t\tsc.loop = sel\n\t\t\tdeclareLabels(sc, n)\n\t\t\tif len(n.child) > 0 && n.child[0].action == aAssign {\n", Benign: true},
+		mutant{Name: "benign-select-records-itself-with-its-own-scope", Prop: "C01", File: "interp/cfg.go", Old: "\t\t\tsc = sc.pushBloc()\n\t\t\tsc.loop = n.anc.anc // a break leaves the select statement\n\t\t\tdeclareLabels(sc, n)\n\t\t\tif len(n.child) > 0 && n.child[0].kind == defineStmt && n.child[0].action == aAssign {\n", New: "\t\t\tsc = sc.pushBloc()\n\t\t\tsel := n.anc.anc\n\t\t\tsc.loop = sel\n\t\t\tdeclareLabels(sc, n)\n\t\t\tif len(n.child) > 0 && n.child[0].kind == defineStmt && n.child[0].action == aAssign {\n", Benign: true},
 	)
 }
 
@@ -544,5 +544,22 @@ func init() {
 	addMutants(
 		// D126 reverted
 		mutant{Name: "panic-value-left-in-the-frame-it-leaves", Prop: "C06", File: "interp/run.go", Old: "\t\t\tr := f.recovered\n\t\t\tf.recovered = nil\n\t\t\tf.mutex.Unlock()\n\t\t\tpanic(r)\n", New: "\t\t\tf.mutex.Unlock()\n\t\t\tpanic(f.recovered)\n", Rule: "R06.18", Key: "runCfg/re-panic#1/value-not-left-in-the-frame"},
+	)
+}
+
+func init() {
+	addMutants(
+		// D127, D128 reverted
+		mutant{Name: "select-assignment-declares-a-clause-variable", Prop: "C01", File: "interp/cfg.go", Old: "\t\t\tif len(n.child) > 0 && n.child[0].kind == defineStmt && n.child[0].action == aAssign {\n", New: "\t\t\tif len(n.child) > 0 && n.child[0].action == aAssign {\n", Rule: "R01.39", Key: "cfg/case:commClause/declaration#1/only-for-a-short-declaration"},
+		mutant{Name: "select-clause-form-without-direction", Prop: "C01", File: "interp/run.go", Old: "\t\tdefault:\n\t\t\t// The comm clause has an empty body clause after a channel receive with assignment.\n\t\t\tchans[i], assigned[i], ok[i], cases[i].Dir = clauseChanDir(c0)\n\t\t\tchanValues[i] = genValue(chans[i])\n\t\t\tif assigned[i] != nil {\n\t\t\t\tassignedValues[i] = genValue(assigned[i])\n\t\t\t}\n\t\t\tif ok[i] != nil {\n\t\t\t\tokValues[i] = genValue(ok[i])\n\t\t\t}\n\t\t\tclause[i] = func(*frame) bltn { return next }\n", New: "", Rule: "R01.40", Key: "_select/clause-forms/every-form-has-a-direction"},
+	)
+}
+
+func init() {
+	addMutants(
+		// D129, D130 reverted
+		mutant{Name: "select-send-value-not-converted", Prop: "C08", File: "interp/run.go", Old: "\t\t\tcases[i].Dir = reflect.SelectSend\n\t\t\tassignedValues[i] = genSendValue(c0.child[0], c0.child[1])\n", New: "\t\t\tcases[i].Dir = reflect.SelectSend\n\t\t\tassignedValues[i] = genValue(c0.child[1])\n", Rule: "R08.16", Key: "_select/send-value#2/converted-as-in-a-send-statement"},
+		mutant{Name: "iota-not-reset-when-a-declaration-starts-gta", Prop: "C03", File: "interp/gta.go", Old: "\t\t\t// The specifications are numbered from zero, whatever the early parse has left.\n\t\t\tsc.iota = 0\n", New: "", Rule: "R03.24", Key: "Interpreter.gta/case:constDecl/specifications-numbered-from-zero"},
+		mutant{Name: "iota-reset-before-the-early-compilation-only", Prop: "C03", File: "interp/cfg.go", Old: "\t\t\t// The specifications are numbered from zero, whatever an earlier declaration\n\t\t\t// (or the early parse above) which failed has left.\n\t\t\tsc.iota = 0\n", New: "", Rule: "R03.24", Key: "Interpreter.cfg/case:constDecl/specifications-numbered-from-zero"},
 	)
 }
